@@ -31,6 +31,8 @@ pub struct LibOpts {
     pub dangling: bool,
     /// internal links inside paragraphs (false: only block references are internal)
     pub inline_internal: bool,
+    /// some notes share identical blocks (same line text in several notes)
+    pub shared_blocks: bool,
 }
 
 impl LibOpts {
@@ -47,6 +49,7 @@ impl LibOpts {
             self_links: true,
             dangling: true,
             inline_internal: true,
+            shared_blocks: true,
         }
     }
 }
@@ -135,8 +138,27 @@ pub fn gen_lib_with_keys(rng: &mut Rng, o: &LibOpts, keys: &[String]) -> Lib {
         artefacts: 0,
     };
     let mut words = Words::new("");
+    // a few blocks that several notes share verbatim (same heading, paragraph and list item text)
+    let shared: Vec<gen::Blk> = vec![
+        gen::Blk::Heading(2, vec![gen::Inl::W("shared".into()), gen::Inl::W("heading".into())], gen::HStyle::Atx),
+        gen::Blk::Para(vec![gen::Inl::W("shared".into()), gen::Inl::W("paragraph".into()), gen::Inl::W("text".into())]),
+        gen::Blk::List(false, 1, true, vec![vec![gen::Blk::Para(vec![gen::Inl::W("shared".into()), gen::Inl::W("item".into())])]]),
+    ];
     for key in keys {
-        let (doc, text, dropped) = gen_note(rng, o, key, keys, &mut words);
+        let (mut doc, mut text, dropped) = gen_note(rng, o, key, keys, &mut words);
+        if o.shared_blocks && rng.chance(1, 4) && !doc.blocks.is_empty() {
+            let b = rng.pick(&shared).clone();
+            let prev_list = matches!(doc.blocks.last(), Some(gen::Blk::List(..)));
+            if !(prev_list && matches!(b, gen::Blk::List(..))) {
+                let mut d2 = doc.clone();
+                d2.blocks.push(b);
+                let t2 = gen::render(&d2, rng.next(), o.crlf);
+                if self_check(&d2, &t2) {
+                    doc = d2;
+                    text = t2;
+                }
+            }
+        }
         lib.artefacts += dropped;
         lib.docs.insert(key.clone(), doc);
         lib.texts.insert(key.clone(), text);
